@@ -9,7 +9,7 @@
 #define ENV_WR_MAX 8192
 #define ENV_NOBYTE 0x100      /* out-of-band marker in the input queue: report "no byte" once */
 
-typedef struct { uint32_t off, len; uint8_t tid; uint64_t t_us; uint8_t joined_seen; } env_write_t;
+typedef struct { uint32_t off, len; uint8_t tid; uint64_t t_us; uint8_t joined_seen; uint32_t consumed; /* uplink bytes the library had read when it made this write */ } env_write_t;
 
 void env_reset(void);
 /* callbacks handed to bidib_start_pointer */
